@@ -12,14 +12,14 @@ import vf
 
 # the content sets are defined in Intern.tla (a configuration file cannot spell sequences); the harness gets the same list
 CONTENTS = {"ContentsSmall": ["", "a", "aa", "ab"], "ContentsLarge": ["", "a", "aa", "ab", "b", "aaa"]}
-CHUNK = 15000   # events per TLC validation run (cut at history boundaries)
+CHUNK = 30000   # events per TLC validation run (cut at history boundaries)
 
 
 def main():
     c = vf.Check("C42", "model_checking")
     vf.build("hooks")
     h = vf.build_harness("hooks", "intern")
-    cname, maxcalls, nrand = ("ContentsLarge", 5, 32) if c.thorough else ("ContentsSmall", 5, 16)
+    cname, maxcalls, nrand = ("ContentsLarge", 5, 64) if c.thorough else ("ContentsSmall", 5, 8)
     contents = CONTENTS[cname]
     cfg = os.path.join(c.workdir, "Intern.cfg")
     with open(cfg, "w") as f:
@@ -27,7 +27,7 @@ def main():
                 "INVARIANTS SameIffEqualContents CompareLikeContents MixedCompareLikeContents ConvertLikeContents HashLikeContents\n"
                 "           SetLikeContents OrderIsStrictTotal PoolWellFormed\nCHECK_DEADLOCK FALSE\n" % (cname, maxcalls))
     m = c.model("Intern.tla", cfg)
-    shards = vf.JOBS
+    shards = 8 if c.thorough else 4      # harness processes = TLC validation runs (vf limits concurrent JVMs machine-wide)
 
     def shard(i):
         out = os.path.join(c.workdir, "i%d.ndjson" % i)
@@ -77,7 +77,7 @@ def main():
                     "trace.ndjson": "".join(json.dumps(e, separators=(",", ":")) + "\n" for e in ch[s:k + 1])}
         return case_of
 
-    vf.pmap(lambda ch: c.validate("InternTrace.tla", "InternTrace.cfg", ch, case_of=case_of_chunk(ch)), chunks)
+    vf.pmap(lambda ch: c.validate("InternTrace.tla", "InternTrace.cfg", ch, case_of=case_of_chunk(ch)), chunks, jobs=shards)
     total = sum(len(ch) for ch in chunks)
     c.cov["evaluations"] = total - n_hist
     c.cov["distinct_nontrivial"] = nontrivial
